@@ -14,7 +14,7 @@
 EXTENDS Integers, Sequences, FiniteSets, TLC, Json, IOUtils
 
 Rec == ndJsonDeserialize(IOEnv.TRACE)
-Kinds == {"req", "answer", "die", "done", "taccept", "tdata", "end"}
+Kinds == {"req", "answer", "die", "timeout", "done", "taccept", "tdata", "end"}
 
 InitSt(e) == [sidOf |-> <<>>,      \* r -> sid
               target |-> <<>>,     \* r -> target class
@@ -24,7 +24,7 @@ InitSt(e) == [sidOf |-> <<>>,      \* r -> sid
 Ok(s)      == [ok |-> TRUE, st |-> s, why |-> "", dev |-> "", site |-> ""]
 No(s, why) == [ok |-> FALSE, st |-> s, why |-> why, dev |-> "", site |-> ""]
 Put(f, k, v) == [x \in DOMAIN f \cup {k} |-> IF x = k THEN v ELSE f[x]]
-Verdict(o) == CASE o = "ok" -> "ok" [] o = "err" -> "err" [] o = "dead" -> "err" [] OTHER -> "none"
+Verdict(o) == CASE o = "ok" -> "ok" [] o = "err" -> "err" [] o = "dead" -> "err" [] o = "timeout" -> "timeout" [] OTHER -> "none"
 
 Apply(s, e) ==
     CASE e.ev = "req" ->
@@ -37,6 +37,8 @@ Apply(s, e) ==
       [] e.ev = "die" ->
             Ok([s EXCEPT !.dead = TRUE,
                          !.outcome = [r \in DOMAIN s.outcome |-> IF s.outcome[r] = "none" THEN "dead" ELSE s.outcome[r]]])
+      [] e.ev = "timeout" ->        \* the caller's timer is about to fire (environment action Timeout of Open.tla)
+            IF e.r \in DOMAIN s.outcome /\ s.outcome[e.r] = "none" THEN Ok([s EXCEPT !.outcome[e.r] = "timeout"]) ELSE Ok(s)
       [] e.ev = "taccept" -> Ok([s EXCEPT !.accepted = @ \cup {e.r}])
       [] e.ev = "tdata" ->
             IF e.r \in s.accepted THEN Ok(s) ELSE No(s, "application data reached a target that was never connected for this request")
